@@ -428,9 +428,21 @@ void LogsumHmmLikelihood::computeDForward_() const
     {
       for (size_t j = 0; j < nbStates_; j++)
       {
-        num2 = dLogLikelihood_[i - 1] * trans.getCol(j);
+        // Log-weights of the predecessors of state j, shifted by their own maximum
+        // (relative to the global maximum they may all underflow, or be zero).
+        for (size_t k = 0; k < nbStates_; k++)
+        {
+          num2[k] = num[k] + log(trans(k, j));
+        }
+        double maxw = VectorTools::max(num2);
+        if (std::isinf(maxw))
+        {
+          dLogLikelihood_[i][j] = 0; // state j can not be reached at this position: it never contributes
+          continue;
+        }
+        num2 -= maxw;
 
-        dLogLikelihood_[i][j] = (*dEmissions)[j] / (*emissions)[j] + VectorTools::sumExp(num, num2) / VectorTools::sumExp(num, trans.getCol(j));
+        dLogLikelihood_[i][j] = (*dEmissions)[j] / (*emissions)[j] + VectorTools::sumExp(num2, dLogLikelihood_[i - 1]) / VectorTools::sumExp(num2);
       }
     }
     else // Reset markov chain:
@@ -538,14 +550,25 @@ void LogsumHmmLikelihood::computeD2Forward_() const
     {
       for (size_t j = 0; j < nbStates_; j++)
       {
-        double den = VectorTools::sumExp(num, trans.getCol(j));
+        // Log-weights of the predecessors of state j, shifted by their own maximum (see computeDForward_)
+        for (size_t k = 0; k < nbStates_; k++)
+        {
+          num2[k] = num[k] + log(trans(k, j));
+        }
+        double maxw = VectorTools::max(num2);
+        if (std::isinf(maxw))
+        {
+          d2LogLikelihood_[i][j] = 0;
+          continue;
+        }
+        num2 -= maxw;
 
-        num2 = dLogLikelihood_[i - 1] * trans.getCol(j);
+        double den = VectorTools::sumExp(num2);
 
-        num3 = (dLogLikelihood_[i - 1] * dLogLikelihood_[i - 1] + d2LogLikelihood_[i - 1]) * trans.getCol(j);
+        num3 = dLogLikelihood_[i - 1] * dLogLikelihood_[i - 1] + d2LogLikelihood_[i - 1];
 
         d2LogLikelihood_[i][j] = (*d2Emissions)[j] / (*emissions)[j] - pow((*dEmissions)[j] / (*emissions)[j], 2)
-            + VectorTools::sumExp(num, num3) / den - pow(VectorTools::sumExp(num, num2) / den, 2);
+            + VectorTools::sumExp(num2, num3) / den - pow(VectorTools::sumExp(num2, dLogLikelihood_[i - 1]) / den, 2);
       }
     }
     else // Reset markov chain:
